@@ -59,13 +59,13 @@ Print Assumptions C10_untouched.
 
 (* no temporary table: when the statement sequence of _create runs without an exception and the transaction is committed,
    the table is under its original name with the new definition and the copied rows, and the temporary name is free *)
-Theorem C10_no_temp : forall k pre db t nd tr ixs f sc T0, lookup t db = Some T0 ->
-  let r := run_batch k pre db t nd tr ixs f sc in
+Theorem C10_no_temp : forall k pre db t nd tr ixs f inj sc T0, lookup t db = Some T0 ->
+  let r := run_batch k pre db t nd tr ixs f inj sc in
   let tmp := calc_temp_name t in
   lookup tmp db = None -> r_err r = None -> eff_outcome sc (r_err r) = Commit ->
   lookup tmp (r_final r) = None /\
   exists T, lookup t (r_final r) = Some T /\ t_def T = nd /\ t_rows T = map (copy_row tr) (t_rows T0).
-Proof. intros k pre db t nd tr ixs f sc T0 H. exact (success_no_temp_lk k pre db t nd tr ixs f sc T0 H). Qed.
+Proof. intros k pre db t nd tr ixs f inj sc T0 H. exact (success_no_temp_lk k pre db t nd tr ixs f inj sc T0 H). Qed.
 Print Assumptions C10_no_temp.
 
 (* genuine deviations of the faithful model (and of the code) from the property, as closed witnesses *)
@@ -99,7 +99,7 @@ Proof.
   split; [eexists; vm_compute; reflexivity|]. eexists; eexists. split; [vm_compute; reflexivity|discriminate].
 Qed.
 Example C10_no_temp_nonvacuous :
-  let r := run_batch Pysqlite false wit_db wit_t (mkDef 11 [0%nat] [[0%nat]] []) [TCol 0; TCol 2] [mkIdx [105]%N [1%nat] false] (fun _ => false) OwnScope in
+  let r := run_batch Pysqlite false wit_db wit_t (mkDef 11 [0%nat] [[0%nat]] []) [TCol 0; TCol 2] [mkIdx [105]%N [1%nat] false] (fun _ => false) (fun _ => EInjected) OwnScope in
   lookup (calc_temp_name wit_t) wit_db = None /\ r_err r = None /\ eff_outcome OwnScope (r_err r) = Commit.
 Proof. vm_compute. repeat split. Qed.
 
